@@ -44,6 +44,7 @@ CLASSES = [  # (directory, file, class, method, operator field or None, enum cla
     (EFFECTS, "NOP.py", "NOP", "il_write", None, None, {}),
     (EFFECTS, "Empty.py", "Empty", "il_write", None, None, {}),
     (HYBRIDS, "SubRoutine.py", "SubRoutine", "il_read", None, None, {}),
+    (HYBRIDS, "PostfixIncDec.py", "PostfixIncDec", "il_exec", "op_type", "HybridType", {}),
 ]
 
 
@@ -116,6 +117,16 @@ class ClsTr:
                 if len(set(out.values())) != len(out):
                     self.err("operator enum has duplicate values", n)
                 return out
+        # the operator enum of the Hybrid classes lives in Hybrids/Hybrid.py
+        other = common.REPO / HYBRIDS / "Hybrid.py"
+        if other.exists() and not getattr(self, "_enum_retry", False):
+            self._enum_retry = True
+            saved = self.tree
+            self.tree = ast.parse(other.read_text())
+            try:
+                return self.read_enum()
+            finally:
+                self.tree = saved
         self.err(f"enum {self.enum_cls} not found")
 
     # ---------------------------------------------------------------- shapes of `self....`
@@ -238,6 +249,12 @@ class ClsTr:
                 return k(W(f"(vt_w {t})"))
             self.err("attribute", e)
         if isinstance(e, ast.Call):
+            if isinstance(e.func, ast.Attribute) and e.func.attr == "il_read" and ast.unparse(e.func.value) == "self" and not e.args and not e.keywords:
+                own = find_function(self.tree, "il_read", self.cls)
+                body = [x for x in own[0].body if not (isinstance(x, ast.Expr) and isinstance(x.value, ast.Constant))] if len(own) == 1 else []
+                if len(body) == 1 and ast.unparse(body[0]) == "return self.ops[0].il_read()":
+                    return k(S([("h", 'SVar "$0"')]))
+                self.err("self.il_read() is not `return self.ops[0].il_read()`", e)
             if isinstance(e.func, ast.Attribute) and e.func.attr in ("il_read", "effect_var") and not e.args and not e.keywords:
                 i = self.op_index(e.func.value)
                 if i is not None:
